@@ -97,6 +97,7 @@ from .fst_misc import (
     fixup_slice_indices,
 )
 
+from .fst_put_one import _fix_With_items
 from .slice_stmtlike import get_slice_stmtlike
 
 from .slice_exprlike import (
@@ -1766,10 +1767,13 @@ def _get_slice_With_AsyncWith_items(
             self._put_src(')', pars_end_ln, pars_end_col, pars_end_ln, pars_end_col, False)
             self._put_src('(', pars_ln, pars_col, pars_ln, pars_col, False)
 
-        elif not start and len_slice != len_body:  # if not adding pars then need to make sure cut didn't join new first `withitem` with the `with`
-            ln, col, _, _ = pars.bound
+        else:
+            _fix_With_items(self)  # if we wound up with a tuple as the only item then need to parenthesize it because otherwise the elements will be mistaken for individual withitems on parse
 
-            self._fix_joined_alnums(ln, col)
+            if not start and len_slice != len_body:  # if not adding pars then need to make sure cut didn't join new first `withitem` with the `with`
+                ln, col, _, _ = pars.bound
+
+                self._fix_joined_alnums(ln, col)
 
     return fst_
 
